@@ -526,6 +526,53 @@ def rule_who(ctx, rep):
                       [found[x][0].where() for x in extra][:3])
 
 
+def rule_percpu(ctx, rep):
+    """set_cpu_call_rcu_data(cpu, crdp): a per-CPU slot is written only inside the array (0 <= cpu < cpus_array_len, array allocated) and never
+    overwritten while occupied - installing over a live helper (both old and new non-NULL) is refused with -EEXIST; the old helper would stay
+    alive but unreachable for teardown (free_all_cpu_call_rcu_data), and callers racing with the switch split their callbacks over two helpers
+    one of which nobody will ever stop, flush or hand over."""
+    for fl in ALL:
+        F = FL[fl]
+        f = ctx.fn(F.lib, F.pfx + "_set_cpu_call_rcu_data")
+        rep.touch(f)
+        sts = [s_ for s_ in f.all_insts() if s_.op == "store" and s_.d.get("ap") and ir.ap_str(f, s_.d["ap"]).startswith("*(@per_cpu_call_rcu_data)") and ir.expr(f, s_.args[0], 3) == ("arg", 1)]
+        if not sts:
+            raise Broken("%s: set_cpu_call_rcu_data: slot store not found" % fl)
+        is_slot = lambda x: x[0] == "load" and x[1].startswith("*(@per_cpu_call_rcu_data)")
+        good, wrong = [], []
+        for b in f.blocks:
+            for s_ in b.succ:
+                for a in ir.edge_atoms(f, b.id, s_):
+                    if a[0] in ("nand", "and", "or", "nor") and len(a) == 3 and all(isinstance(x, tuple) and len(x) == 3 for x in a[1:]):
+                        parts = a[1:]
+                        if any(is_slot(x[1]) for x in parts):
+                            want = a[0] == "nand" and any(x[0] == "ne" and is_slot(x[1]) and x[2] == ("c", 0) for x in parts) and any(x[0] == "ne" and x[1] == ("arg", 1) and x[2] == ("c", 0) for x in parts)
+                            (good if want else wrong).append((b.id, s_, a))
+                    elif len(a) == 3 and a[0] in ("eq", "ne") and a[2] == ("c", 0) and (is_slot(a[1]) or a[1] == ("arg", 1)):
+                        # nested ifs: slot == NULL, or crdp == NULL, each allows the store
+                        if a[0] == "eq":
+                            good.append((b.id, s_, a))
+        okE = [(x, y) for x, y, _ in good]
+        hit, par = f.reach([f.entry()], sts, edge_ok=pat.block_edge_filter(okE), include_start=True)
+        if hit is None:
+            rep.ok("C03.percpu", fl + ".no-overwrite", "a per-CPU slot is written only when it is empty or is being cleared")
+        else:
+            pth = f.path_to(hit, par)
+            blks = [i.blk.id for i in pth]
+            bad = [(x, y, a) for x, y, a in wrong if any(p_ == x and q_ == y for p_, q_ in zip(blks, blks[1:]))]
+            if bad or not (good or wrong):
+                rep.bad("C03.percpu", fl + ".no-overwrite", "set_cpu_call_rcu_data stores the new helper %s: an occupied slot is overwritten (the old helper is never torn down, callbacks split over two helpers) "
+                        "or the -EEXIST refusal hits the wrong case" % ("on the edge %s" % ir.atom_str(bad[0][2]) if bad else "without looking at the slot"), [sts[0].where()])
+            else:
+                rep.unk("C03.percpu", fl + ".no-overwrite", "the guard of the slot store is not recognised")
+        lv = pat.dom_leaf_atoms(f, sts[0])
+        lo = any(a[0] == "sge" and a[1] == ("arg", 0) and a[2] == ("c", 0) for a in lv) or any(a[0] == "sgt" and a[1] == ("arg", 0) and a[2] == ("c", -1) for a in lv)
+        hi = any(a[0] == "sgt" and a[2] == ("arg", 0) and a[1][0] == "load" and a[1][1] == "@cpus_array_len" for a in lv) or any(a[0] == "slt" and a[1] == ("arg", 0) and a[2][0] == "load" and a[2][1] == "@cpus_array_len" for a in lv)
+        nn = any(a[0] == "ne" and a[2] == ("c", 0) and a[1][0] == "load" and a[1][1] == "@per_cpu_call_rcu_data" for a in lv)
+        rep.check(lo and hi and nn, "C03.percpu", fl + ".slot-in-array", "the slot store is reached only with 0 <= cpu < cpus_array_len and an allocated array",
+                  "the slot store is not guarded by %s" % ", ".join(n for n, v in (("cpu >= 0", lo), ("cpu < cpus_array_len", hi), ("array != NULL", nn)) if not v), [sts[0].where()])
+
+
 def rule_wake(ctx, rep):
     """call_rcu_wake_up: reset the helper's futex word before FUTEX_WAKE, only when it is -1 (all flavors)"""
     for fl in ALL:
@@ -739,6 +786,7 @@ RULES = [
     ("C03.list", rule_list),
     ("C03.cb-nolock", rule_cb_nolock),
     ("C03.who", rule_who),
+    ("C03.percpu", rule_percpu),
     ("C03.default", rule_default),
     ("C03.publast", rule_publast),
     ("C03.select", rule_select),
